@@ -129,7 +129,7 @@ PROBES.insert(0, (re.compile(r"^hid::Message::(send|to_packets)::"), "hid-roundt
                   + ["01020304:10:" + "".join("%02x" % (1 + (k * 7) % 250) for k in range(n)) + ":w%d" % w for (n, w) in ((10, 64), (10, 40), (130, 63), (130, 1))]))
 
 
-CEREMONY = {"C17": ["c17"], "C09": ["c09", "c09-enabled"], "C04": ["c04"], "C05": ["c05"], "C07": ["c07"], "C08": ["c08"], "C11": ["c11"], "C02": ["c07", "c11"], "C03": ["c05"]}
+CEREMONY = {"C17": ["c17"], "C09": ["c09", "c09-enabled"], "C04": ["c04"], "C05": ["c05"], "C07": ["c07"], "C08": ["c08"], "C11": ["c11"], "C02": ["c02-alg", "c07", "c11"], "C03": ["c05"]}
 
 
 def probe(o, pid=None):
